@@ -369,6 +369,9 @@ func runC11(t *testing.T, rec *vrec, sc *c11Scenario, rng *vrng) {
 		own = append(own, captDown[victim.addr.String()]...)
 		capMu.Unlock()
 		mode := rng.intn(3)
+		if mode == 1 && rng.chance(0.5) && len(donors) > 0 && w.link.Cipher == "" && w.link.D == 0 {
+			mode = 11 // the captured-datagram variant below
+		}
 		switch {
 		case mode == 0 && len(donors) > 0:
 			// another conversation's genuine datagrams, replayed from a third
@@ -392,7 +395,7 @@ func runC11(t *testing.T, rec *vrec, sc *c11Scenario, rng *vrng) {
 			}
 			rec.count("injected_foreign_datagram_from_third_address", 1)
 			injected++
-		case mode == 1 && len(donors) > 0:
+		case mode == 11 && len(donors) > 0:
 			// another conversation's datagram with the VICTIM's source address:
 			// conversation id mismatch -> ignored unless it starts a conversation
 			donor := donors[rng.intn(len(donors))]
@@ -423,6 +426,29 @@ func runC11(t *testing.T, rec *vrec, sc *c11Scenario, rng *vrng) {
 				w.viol11("C11 datagram of a different conversation (not starting one) changed the session table", "%s -> %s", l1, l2)
 			}
 			rec.count("injected_other_conversation_from_same_address", 1)
+			injected++
+		case mode == 1 && w.link.D == 0:
+			// a datagram from the victim's own address whose first segment belongs
+			// to the conversation (a window announcement that changes nothing) and
+			// whose second segment carries another conversation id with exactly
+			// the sequence number the session expects: must not be merged
+			v := victim.srv
+			v.mu.Lock()
+			quiet := len(v.kcp.acklist) == 0
+			noop := wseg{conv: v.kcp.conv, cmd: IKCP_CMD_WINS, wnd: uint16(v.kcp.rmt_wnd), una: v.kcp.snd_una}
+			alien := wseg{conv: v.kcp.conv ^ 0x0badc0de, cmd: IKCP_CMD_PUSH, wnd: uint16(v.kcp.rmt_wnd), sn: v.kcp.rcv_nxt, una: v.kcp.snd_una, data: []byte("ALIEN-CONVERSATION")}
+			v.mu.Unlock()
+			if !quiet {
+				break
+			}
+			dg := newSealer(cipherByName(w.link.Cipher), w.key).seal(rng, append(encodeSeg(noop), encodeSeg(alien)...))
+			s1 := sessionSnapshot(v)
+			w.hub.inject(victim.addr, laddrS, dg)
+			synctest.Wait()
+			if s2 := sessionSnapshot(v); s1 != s2 {
+				w.viol11("C11 a segment with a different conversation id inside a datagram from the same address was merged into the session", "victim peer %d (conv %#x): %s", victim.id, victim.conv, snapDiff(s1, s2))
+			}
+			rec.count("injected_mixed_conversation_datagram_from_same_address", 1)
 			injected++
 		case mode == 2 && len(own) > 0:
 			// dialled session: genuine server datagrams arriving from a non-peer
